@@ -390,7 +390,16 @@ def _range_value(g, rd, f, idx, ctx, env, depth=0):
                 if sn['i'] != idx or sf is not f:
                     return _range_value(g, rd, sf, sn['i'], sc, env, depth + 1)
         return None
-    if k == 'call' and n.get('obj') is not None:
+    if k == 'call':
+        # a private helper of the same class that builds the span / the range (inlined by the graph): what it returns, with its
+        # parameters bound to the arguments of this call
+        for c in g.ctxs:
+            if c is not None and c.call is n and c.caller is f and c.parent is ctx and not c.lambda_of:
+                rets = [p for p in g.points if p.ctx is c and p.n is not None and p.n['k'] == 'return' and p.n.get('e') is not None]
+                vals = [_range_value(g, rd, c.f, r.n['e'], c, env, depth + 1) for r in rets]
+                if len(vals) == 1:
+                    return vals[0]
+                return None
         # first_.subspan(a, b) / first(n) are not used by the code base today: inconclusive
         return None
     return None
@@ -405,7 +414,12 @@ def rule_r5(ck, prog, CB):
         sq = strip_targs(f.qn)
         if not (sq.rsplit('::', 1)[0].endswith(CB)) or not f.blocks or f.d.get('lambda'):
             continue
-        if any(n['k'] == 'construct' and strip_targs(n.get('c', '')).endswith('nostd::span::span') and len(n.get('args', [])) == 2 for n in f.nodes):
+        if 'CircularBufferRange' not in (f.d.get('ret') or '') or 'const ' in (f.d.get('ret') or '').split('CircularBufferRange', 1)[1][:8]:
+            continue
+        # the member that hands out the queued range: it builds spans over data_ itself or through a private helper
+        own = any(n['k'] == 'construct' and strip_targs(n.get('c', '')).endswith('nostd::span::span') and len(n.get('args', [])) == 2 for n in f.nodes)
+        via = any(n['k'] == 'call' and n.get('ck') in prog.funcs and prog.funcs[n['ck']].cls == f.cls and 'nostd::span<' in (prog.funcs[n['ck']].d.get('ret') or '') for n in f.nodes)
+        if own or via:
             peeks.append(f)
     seen_cls = set()
     for f in sorted(peeks, key=lambda x: x.qn):
@@ -413,7 +427,8 @@ def rule_r5(ck, prog, CB):
         if cls in seen_cls:
             continue
         seen_cls.add(cls)
-        g = Graph(prog, f, inline=None, sync_lambdas=False)
+        from .common import same_class_inline
+        g = Graph(prog, f, inline=same_class_inline(prog, f.cls or ''), sync_lambdas=False, max_depth=2)
         rd = reaching_defs(g)
         rets = g.returns()
         bad = None
